@@ -9,9 +9,10 @@ from sa.absint import Analyzer
 from sa.cfg import CFG, calls_in
 from sa.kern import make_evaluator
 from sa.lin import Lin, entails
+from sa.casesplit import equivalent
 from sa.loopsum import INF, LoopSummariser, kvar
 from sa.report import Ctx
-from sa.srcmodel import ClassInfo, FuncInfo, func_body
+from sa.srcmodel import FuncInfo, func_body, inline_locals
 from sa.symterm import (Env, Poly, Unsupported, all_atoms, ite, show,
                         show_cond)
 
@@ -41,6 +42,19 @@ def _cell(arr: str, row: Poly, col: int) -> Poly:
     return Poly.atom(("cell", arr, (row, Poly.const(col))))
 
 
+def limit_of(ret: Any) -> tuple | None:
+    """The min-reduction M such that the returned condition is `M > 0`.
+
+    However it is spelled (0 < M, M >= 1, not M <= 0 - the coordinates are
+    integers): decided by comparing the outcomes on all cases."""
+    if isinstance(ret, tuple) and ret and isinstance(ret[0], str):
+        for a in sorted({a for a in all_atoms(ret) if a[0] == "minred"},
+                        key=repr):
+            if equivalent(ret, ("lt", Poly.const(0), Poly.atom(a)))[0]:
+                return a
+    return None
+
+
 def move_kernel(ctx: Ctx, fi: FuncInfo, kind: str, enc2: bool,
                 C: dict[str, int], rule: str = "D14.3") -> dict[str, Any]:
     """Decide one move kernel against the documented rule.  Returns the
@@ -65,11 +79,7 @@ def move_kernel(ctx: Ctx, fi: FuncInfo, kind: str, enc2: bool,
                construct=f"{name} normal form")
         return info
     ret = env.returned
-    M = None
-    if isinstance(ret, tuple) and ret[0] == "lt" and ret[1] == Poly.const(0):
-        a = ret[2].as_atom()
-        if a is not None and a[0] == "minred":
-            M = a
+    M = limit_of(ret)
     if M is None:
         ctx.ob(rule, fi, fi.node, False,
                "the kernel does not return `0 < min over the blockers`: "
@@ -154,7 +164,8 @@ def move_kernel(ctx: Ctx, fi: FuncInfo, kind: str, enc2: bool,
                                                     own[c1]),
                (arr, (i1, Poly.const(C[c2]))): ite(moved, own[c2] - Mp,
                                                    own[c2])}
-    oku = dict(env.stores) == want_st
+    oku = set(env.stores) == set(want_st) and all(
+        equivalent(env.stores[k], v)[0] for k, v in want_st.items())
     ctx.ob(rule, fi, fi.node, oku,
            f"{name}: iff the limit is positive, both "
            f"{'bottom and top' if kind == 'down' else 'left and right'} "
@@ -198,7 +209,7 @@ def run(ctx: Ctx) -> None:
         move_kernel(ctx, left, "left", enc2, C)
         dec = repo.func(modn, "_decode")
         _protocol(ctx, dec, down, left)
-        _drop_and_bins(ctx, dec, enc2, C)
+        _drop_and_bins(ctx, enc, enc2, C)
         _stateless_kernel(ctx, dec, enc2, C)
         _stateless_class(ctx, modn, dec)
     ctx.exhaustive = True
@@ -211,47 +222,111 @@ def run(ctx: Ctx) -> None:
 # ------------------------------------------------------------------ D14.2
 def _protocol(ctx: Ctx, dec: FuncInfo, down: FuncInfo, left: FuncInfo) \
         -> None:
+    """The call-sequence automaton of the placement loop.
+
+    The outcomes of the kernel calls are the only unknowns: a boolean local
+    that holds such an outcome (`moved = down(..) or left(..)`) is rewritten
+    as the branch that computes it, and the walk over the control flow graph
+    carries the known values of boolean locals, so that `while A or B: pass`,
+    `moved = True; while moved: moved = A or B` and `while True: if A:
+    continue; if not B: break` all yield the same automaton."""
+    import copy
     repo = ctx.repo
-    cfg = CFG(dec.node)
+
+    def is_kernel(c: ast.AST) -> FuncInfo | None:
+        if isinstance(c, ast.Call) and isinstance(c.func, ast.Name):
+            r = repo.resolve(dec.module, c.func.id)
+            if r is down or r is left:
+                return r
+        return None
+
+    class Desugar(ast.NodeTransformer):
+        def _rewrite(self, tg: ast.Name, value: ast.expr,
+                     at: ast.stmt) -> ast.stmt:
+            def asg(v: bool) -> ast.stmt:
+                return ast.copy_location(ast.Assign(
+                    targets=[ast.Name(id=tg.id, ctx=ast.Store())],
+                    value=ast.Constant(value=v)), at)
+            return ast.copy_location(ast.If(
+                test=value, body=[asg(True)], orelse=[asg(False)]), at)
+
+        def visit_Assign(self, n: ast.Assign) -> ast.AST:
+            if len(n.targets) == 1 and isinstance(
+                    n.targets[0], ast.Name) and any(
+                    is_kernel(c) for c in ast.walk(n.value)):
+                return self._rewrite(n.targets[0], n.value, n)
+            return n
+
+        def visit_AnnAssign(self, n: ast.AnnAssign) -> ast.AST:
+            if n.value is not None and isinstance(
+                    n.target, ast.Name) and any(
+                    is_kernel(c) for c in ast.walk(n.value)):
+                return self._rewrite(n.target, n.value, n)
+            return n
+    fn = ast.fix_missing_locations(Desugar().visit(copy.deepcopy(dec.node)))
+    cfg = CFG(fn)
 
     def callee(n: Any) -> FuncInfo | None:
         if n.kind != "test":
             return None
         for c in calls_in(n.ast):
-            if isinstance(c.func, ast.Name):
-                r = repo.resolve(dec.module, c.func.id)
-                if r in (down, left):
-                    return r
+            r = is_kernel(c)
+            if r is not None:
+                return r
         return None
     tests = [n for n in cfg.nodes if callee(n) is not None]
     dn = [n for n in tests if callee(n) is down]
     lf = [n for n in tests if callee(n) is left]
-    ok = len(dn) == 1 and len(lf) == 1
-    detail = f"{len(dn)} move-down and {len(lf)} move-left tests"
+    # kernel calls outside of branch conditions are not modelled
+    n_calls = sum(1 for c in ast.walk(fn) if is_kernel(c))
+    ok = len(dn) == 1 and len(lf) == 1 and n_calls == 2
+    detail = (f"{len(dn)} move-down and {len(lf)} move-left calls whose "
+              f"outcome is branched on ({n_calls} calls in total)")
     if ok:
         d, l_ = dn[0], lf[0]
-
-        loop_nodes = set()
-        for w_ in ast.walk(dec.node):
-            if isinstance(w_, ast.While) and any(
-                    isinstance(c, ast.Call) and isinstance(
-                        c.func, ast.Name) and repo.resolve(
-                        dec.module, c.func.id) in (down, left)
-                    for c in ast.walk(w_)):
+        loop_nodes: set[int] = set()
+        the_loop = None
+        for w_ in ast.walk(fn):
+            if isinstance(w_, (ast.While, ast.For)) and any(
+                    is_kernel(c) for c in ast.walk(w_)) and not any(
+                    isinstance(x, (ast.While, ast.For)) and x is not w_
+                    and any(is_kernel(c) for c in ast.walk(x))
+                    for x in ast.walk(w_)):
                 loop_nodes = {id(x) for x in ast.walk(w_)}
+                the_loop = w_
 
-        def nxt(n: Any, lab: bool) -> frozenset:
-            """Move tests reachable next from outcome `lab` of test n
-            without passing another move test; "EXIT" = leaves the loop,
-            "OTHER" = some other effectful statement runs in between."""
-            out = set()
-            seen = set()
-            stack = [m for m, lb in n.succ if lb is lab]
+        def step_env(m: Any, env: frozenset) -> frozenset:
+            a_ = m.ast
+            if m.kind == "stmt" and isinstance(
+                    a_, (ast.Assign, ast.AnnAssign, ast.AugAssign)):
+                tgs = a_.targets if isinstance(a_, ast.Assign) \
+                    else [a_.target]
+                e = dict(env)
+                for t in tgs:
+                    for x in ast.walk(t):
+                        if isinstance(x, ast.Name):
+                            e.pop(x.id, None)
+                v = getattr(a_, "value", None)
+                if len(tgs) == 1 and isinstance(
+                        tgs[0], ast.Name) and isinstance(
+                        v, ast.Constant) and isinstance(v.value, bool) \
+                        and not isinstance(a_, ast.AugAssign):
+                    e[tgs[0].id] = v.value
+                return frozenset(e.items())
+            return env
+
+        def walk_from(starts: list[tuple[Any, frozenset]]) -> frozenset:
+            """Kernel tests reachable next without passing another one;
+            "EXIT" = leaves the loop, "OTHER" = some other effectful
+            statement or an undetermined test runs in between."""
+            out: set[Any] = set()
+            seen: set[tuple[int, frozenset]] = set()
+            stack = list(starts)
             while stack:
-                m = stack.pop()
-                if m in seen:
+                m, env = stack.pop()
+                if (m.idx, env) in seen:
                     continue
-                seen.add(m)
+                seen.add((m.idx, env))
                 if callee(m) is not None:
                     out.add(m)
                     continue
@@ -263,36 +338,67 @@ def _protocol(ctx: Ctx, dec: FuncInfo, down: FuncInfo, left: FuncInfo) \
                     out.add("EXIT")
                     continue
                 if m.kind == "test":
-                    cv = m.ast.value if isinstance(
-                        m.ast, ast.Constant) else None
+                    cv = None
+                    if isinstance(m.ast, ast.Constant):
+                        cv = m.ast.value
+                    elif isinstance(m.ast, ast.Name):
+                        cv = dict(env).get(m.ast.id)
                     if cv is True or cv is False:
-                        stack += [x for x, lb in m.succ if lb is cv]
+                        stack += [(x, env) for x, lb in m.succ if lb is cv]
                         continue
                     out.add("OTHER")
                     continue
-                if m.kind == "stmt" and not isinstance(
-                        m.ast, (ast.Pass, ast.Continue, ast.Break)):
-                    out.add("OTHER")
-                    continue
-                stack += [x for x, _ in m.succ]
+                if m.kind == "stmt":
+                    a_ = m.ast
+                    pure_flag = isinstance(
+                        a_, (ast.Assign, ast.AnnAssign)) and isinstance(
+                        getattr(a_, "value", None), ast.Constant) and all(
+                        isinstance(t, ast.Name) for t in (
+                            a_.targets if isinstance(a_, ast.Assign)
+                            else [a_.target]))
+                    if not pure_flag and not isinstance(
+                            a_, (ast.Pass, ast.Continue, ast.Break)):
+                        out.add("OTHER")
+                        continue
+                    env = step_env(m, env)
+                stack += [(x, env) for x, _ in m.succ]
             return frozenset(out)
+
+        def nxt(n: Any, lab: bool) -> frozenset:
+            return walk_from([(m, frozenset()) for m, lb in n.succ
+                              if lb is lab])
+        # entry: flags set right before the loop are known
+        env0: dict[str, bool] = {}
+        for blk in ast.walk(fn):
+            for fld in ("body", "orelse"):
+                seq = getattr(blk, fld, None)
+                if isinstance(seq, list) and the_loop in seq:
+                    for s_ in seq[:seq.index(the_loop)]:
+                        if isinstance(s_, (ast.Assign, ast.AnnAssign)):
+                            tgs = s_.targets if isinstance(
+                                s_, ast.Assign) else [s_.target]
+                            v = s_.value
+                            for t in tgs:
+                                if isinstance(t, ast.Name):
+                                    env0.pop(t.id, None)
+                                    if isinstance(
+                                            v, ast.Constant) and isinstance(
+                                            v.value, bool):
+                                        env0[t.id] = v.value
+        head = next((n for n in cfg.nodes if n.ast is the_loop), None)
+        first = walk_from([(head, frozenset(env0.items()))]) \
+            if head is not None else frozenset()
         ok = nxt(d, True) == {d} and nxt(d, False) == {l_} and \
-            nxt(l_, True) == {d} and nxt(l_, False) == {"EXIT"}
-        detail = ("automaton: down --ok--> down, down --fail--> left, "
-                  "left --ok--> down, left --fail--> exit" if ok else
+            nxt(l_, True) == {d} and nxt(l_, False) == {"EXIT"} and \
+            first == {d}
+        detail = ("automaton: start -> down, down --ok--> down, "
+                  "down --fail--> left, left --ok--> down, "
+                  "left --fail--> exit" if ok else
                   "the placement loop does not follow down-first: "
-                  f"down ok->{set(nxt(d, True))}, down fail->"
-                  f"{set(nxt(d, False))}, left ok->{set(nxt(l_, True))}, "
-                  f"left fail->{set(nxt(l_, False))}")
-        # arguments: same row for both, the current item
-        for n in (d, l_):
-            for c in calls_in(n.ast):
-                if isinstance(c.func, ast.Name) and repo.resolve(
-                        dec.module, c.func.id) in (down, left):
-                    last = c.args[-1]
-                    if not (isinstance(last, ast.Name)):
-                        ok = False
-                        detail += "; moved row is not the loop index"
+                  f"start->{set(first)}, down ok->{set(nxt(d, True))}, "
+                  f"down fail->{set(nxt(d, False))}, left ok->"
+                  f"{set(nxt(l_, True))}, left fail->"
+                  f"{set(nxt(l_, False))}")
     ctx.ob("D14.2", dec, dec.node, ok, detail,
            construct="move protocol automaton")
 
@@ -305,257 +411,13 @@ def _item_loop(dec: FuncInfo) -> ast.For:
     raise Unsupported("no item loop")
 
 
-def _drop_and_bins(ctx: Ctx, dec: FuncInfo, enc2: bool,
+def _drop_and_bins(ctx: Ctx, enc: str, enc2: bool,
                    C: dict[str, int]) -> None:
-    loop = _item_loop(dec)
-    ev = make_evaluator(ctx.repo, dec)
-    ev.int_transparent = True
-    W, H = Poly.var("bin_width"), Poly.var("bin_height")
-    w, h = Poly.var("w"), Poly.var("h")
-    i = Poly.var(loop.target.elts[0].id) if isinstance(
-        loop.target, ast.Tuple) else Poly.var("i")
-    loop_i = loop.target.elts[0].id if isinstance(
-        loop.target, ast.Tuple) else "i"
-
-    def stores_of(stmts: list[ast.stmt]) -> dict[int, Poly]:
-        env = Env()
-        env.vars.update({"w": w, "h": h})
-        out: dict[int, Poly] = {}
-        for s in stmts:
-            if isinstance(s, ast.Assign) and isinstance(
-                    s.targets[0], ast.Subscript) and isinstance(
-                    s.targets[0].value, ast.Name) and \
-                    s.targets[0].value.id == "y":
-                try:
-                    idx = ev.index(env, s.targets[0].slice)
-                    val = ev.num(env, s.value)
-                except Unsupported:
-                    continue
-                cv = idx[1].const_value()
-                if idx[0] == i and cv is not None:
-                    out[int(cv)] = val
-        return out
-    # the block that holds the while loop (loop body in enc1, the bin loop
-    # in enc2)
-    holder: list[ast.stmt] = loop.body
-    binloop = None
-    if enc2:
-        binloop = next((s for s in loop.body if isinstance(s, ast.For)),
-                       None)
-        ctx.need(binloop is not None, "encoding 2: loop over the open bins")
-        holder = binloop.body
-    widx = next((k for k, s in enumerate(holder)
-                 if isinstance(s, ast.While)), None)
-    if widx is None:
-        ctx.ob("D14.2", dec, holder[0], False,
-               "there is no loop that repeats the down/left moves until the "
-               "item rests", construct="placement loop")
-        return
-    drop = stores_of(holder[:widx])
-    want = {C["IDX_LEFT_X"]: W - w, C["IDX_BOTTOM_Y"]: H,
-            C["IDX_RIGHT_X"]: W, C["IDX_TOP_Y"]: H + h}
-    got = {k: v for k, v in drop.items() if k in want}
-    ctx.ob("D14.4", dec, holder[0], got == want,
-           "drop position is (W-w, H, W, H+h): the item starts on top of "
-           "the bin, flush right" if got == want else
-           "drop position is "
-           f"{ {k: show(v) for k, v in sorted(got.items())} }",
-           construct="drop position")
-    # the new-bin block: an If whose body increments bin_id
-    newbin = None
-    for s in ast.walk(loop):
-        if isinstance(s, ast.If) and any(
-                isinstance(x, ast.Assign) and isinstance(
-                    x.targets[0], ast.Name) and x.targets[0].id == "bin_id"
-                for x in s.body):
-            newbin = s
-    ctx.need(newbin is not None, "new-bin branch")
-    reset = stores_of(newbin.body)
-    want_r = {C["IDX_LEFT_X"]: Poly.const(0), C["IDX_BOTTOM_Y"]:
-              Poly.const(0), C["IDX_RIGHT_X"]: w, C["IDX_TOP_Y"]: h}
-    got_r = {k: v for k, v in reset.items() if k in want_r}
-    ctx.ob("D14.4", dec, newbin, got_r == want_r,
-           "a new bin places the item at (0, 0, w, h)" if got_r == want_r
-           else f"new-bin reset is "
-                f"{ {k: show(v) for k, v in sorted(got_r.items())} }",
-           construct="new-bin reset")
-    inc = [x for x in newbin.body if isinstance(x, ast.Assign) and isinstance(
-        x.targets[0], ast.Name) and x.targets[0].id == "bin_id"]
-    ok_inc = len(inc) == 1 and ast.unparse(inc[0].value).replace(
-        " ", "") in ("bin_id+1", "1+bin_id")
-    ctx.ob("D14.4", dec, inc[0] if inc else newbin, ok_inc,
-           "a new bin increments the bin counter by one",
-           construct="bin counter increment")
-    if not enc2:
-        # next fit: the window start moves to the new item, the new-bin
-        # condition is the failed fit test
-        bs = [x for x in newbin.body if isinstance(x, ast.Assign)
-              and isinstance(x.targets[0], ast.Name)
-              and x.targets[0].id == "bin_start"]
-        okb = len(bs) == 1 and isinstance(bs[0].value, ast.Name) and \
-            Poly.var(bs[0].value.id) == i
-        env = Env()
-        try:
-            c = ev.cond(env, newbin.test)
-        except Unsupported:
-            c = None
-        yr = Poly.atom(("cell", "y", (i, Poly.const(C["IDX_RIGHT_X"]))))
-        yt = Poly.atom(("cell", "y", (i, Poly.const(C["IDX_TOP_Y"]))))
-        want_c = ("or", ("lt", W, yr), ("lt", H, yt))
-        okc = c == want_c
-        ctx.ob("D14.4", dec, newbin, bool(okb and okc),
-               "next-fit: a new bin is opened iff the settled item sticks "
-               "out (right > W or top > H); later items only see the new "
-               "bin" if okb and okc else
-               f"next-fit broken: condition [{show_cond(c) if c else '?'}], "
-               f"bin_start updated: {okb}", construct="next-fit policy")
-        n_assign = sum(1 for x in ast.walk(dec.node) if (isinstance(
-            x, ast.Assign) and isinstance(x.targets[0], ast.Name)
-            and x.targets[0].id == "bin_start") or (isinstance(
-                x, ast.AnnAssign) and x.value is not None and isinstance(
-                x.target, ast.Name) and x.target.id == "bin_start"))
-        init0 = [x for x in func_body(dec) if isinstance(
-            x, (ast.Assign, ast.AnnAssign)) and x.value is not None and
-            isinstance(x.targets[0] if isinstance(x, ast.Assign)
-                       else x.target, ast.Name) and (
-                x.targets[0] if isinstance(x, ast.Assign)
-                else x.target).id == "bin_start"]
-        ok0 = len(init0) == 1 and ctx.repo.const(
-            dec.module, init0[0].value) == 0
-        ctx.ob("D14.4", dec, dec.node, n_assign == 2 and ok0,
-               "bin_start is set only initially (0) and when a bin is "
-               "opened: the window [bin_start, i) holds exactly the boxes "
-               "of the current bin" if n_assign == 2 and ok0 else
-               "the window of the current bin does not start at the first "
-               "box (bin_start initial value / extra assignments)",
-               construct="bin_start assignments")
-        # the move kernels are called on (packing, window start, new item)
-        for mk in ("__move_down", "__move_left"):
-            cs = [c_ for c_ in ast.walk(dec.node) if isinstance(c_, ast.Call)
-                  and isinstance(c_.func, ast.Name) and c_.func.id == mk]
-            okm = bool(cs) and all(
-                not c_.keywords and [ast.unparse(a) for a in c_.args] == [
-                    dec.params[1], "bin_start", loop_i]
-                for c_ in cs)
-            ctx.ob("D14.4", dec, cs[0] if cs else dec.node, okm,
-                   f"{mk}(packing, bin_start, i): the item just placed is "
-                   "moved against the boxes of its bin" if okm else
-                   f"{mk} is not called as (packing, bin_start, current "
-                   "index)", construct=f"arguments of {mk}")
-    else:
-        it = binloop.iter
-        okr = isinstance(it, ast.Call) and isinstance(
-            it.func, ast.Name) and it.func.id == "range" and len(
-            it.args) == 2 and ast.unparse(it.args[0]) == "1" and \
-            ast.unparse(it.args[1]).replace(" ", "") in (
-                "bin_id+1", "1+bin_id")
-        ctx.ob("D14.4", dec, binloop, okr,
-               "first fit: bins 1..bin_id are tried in ascending order",
-               construct="first-fit bin order")
-        # the fit test ends the search at the first fit
-        fit = next((s for s in binloop.body if isinstance(s, ast.If)), None)
-        okf = False
-        if fit is not None:
-            env = Env()
-            try:
-                c = ev.cond(env, fit.test)
-            except Unsupported:
-                c = None
-            yr = Poly.atom(("cell", "y", (i, Poly.const(C["IDX_RIGHT_X"]))))
-            yt = Poly.atom(("cell", "y", (i, Poly.const(C["IDX_TOP_Y"]))))
-            okf = c == ("and", ("le", yr, W), ("le", yt, H)) and isinstance(
-                fit.body[-1], ast.Break)
-        ctx.ob("D14.4", dec, fit or binloop, okf,
-               "the search stops (`break`) at the first bin in which the "
-               "settled item lies inside the bin", construct="first fit")
-        # windows come from the tables, indexed by bin - 1
-        okw = True
-        for nm, tab in (("bin_start", "bin_starts"), ("bin_end",
-                                                      "bin_ends")):
-            a = [x for x in binloop.body if isinstance(x, ast.Assign)
-                 and isinstance(x.targets[0], ast.Name)
-                 and x.targets[0].id == nm]
-            okw = okw and len(a) == 1 and ast.unparse(a[0].value).replace(
-                " ", "") == f"{tab}[item_bin-1]"
-        ctx.ob("D14.4", dec, binloop, okw,
-               "each bin's window is [bin_starts[b-1], bin_ends[b-1])",
-               construct="bin windows")
-        # ---- the window tables follow the boxes: every box of bin b has an
-        # index in [starts[b-1], ends[b-1])
-        def table_stores(stmts: list[ast.stmt]) -> dict[str, tuple]:
-            env = Env()
-            env.vars["bin_id"] = Poly.var("bin_id")
-            env.vars["item_bin"] = Poly.var("item_bin")
-            env.vars[loop_i] = i
-            out: dict[str, tuple] = {}
-            for st in stmts:
-                if isinstance(st, ast.Assign) and isinstance(
-                        st.targets[0], ast.Subscript) and isinstance(
-                        st.targets[0].value, ast.Name) and \
-                        st.targets[0].value.id in ("bin_starts", "bin_ends"):
-                    try:
-                        k_ = ev.num(env, st.targets[0].slice)
-                        v_ = ev.num(env, st.value)
-                    except Unsupported:
-                        continue
-                    out[st.targets[0].value.id] = (k_, v_)
-                elif isinstance(st, ast.Assign) and isinstance(
-                        st.targets[0], ast.Name) and \
-                        st.targets[0].id == "bin_id":
-                    try:
-                        env = ev.stmt(env, st)
-                    except Unsupported:
-                        pass
-            return out
-        one = Poly.const(1)
-        B, ib = Poly.var("bin_id"), Poly.var("item_bin")
-        t_problems = []
-        init = table_stores([s for s in func_body(dec)
-                             if s is not loop])
-        if init.get("bin_starts") != (Poly.const(0), Poly.const(0)):
-            t_problems.append("bin 1's window does not start at box 0")
-        e0 = init.get("bin_ends")
-        if e0 is None or e0[0] != Poly.const(0) or (
-                e0[1].const_value() is None or e0[1].const_value() > 0):
-            t_problems.append("bin 1's window is not initially empty")
-        placed = table_stores(fit.body if fit is not None else [])
-        if placed.get("bin_ends") != (ib - one, i + one) or \
-                "bin_starts" in placed:
-            t_problems.append(
-                "placing item i in bin b must extend the window: "
-                "bin_ends[b-1] = i + 1 (found "
-                + str({k: (show(a), show(b)) for k, (a, b)
-                       in placed.items()}) + ")")
-        opened = table_stores(newbin.body)
-        if opened.get("bin_starts") != (B, i) or opened.get(
-                "bin_ends") != (B, i + one):
-            t_problems.append(
-                "opening bin B+1 must set its window to [i, i+1): "
-                "bin_starts[B] = i, bin_ends[B] = i + 1 before the counter "
-                "is incremented (found "
-                + str({k: (show(a), show(b)) for k, (a, b)
-                       in opened.items()}) + ")")
-        ctx.ob("D14.4", dec, newbin, not t_problems,
-               "the window tables follow the boxes: bin 1 starts as [0, 0), "
-               "placing item i in bin b sets bin_ends[b-1] = i + 1, opening "
-               "a bin records [i, i+1) - every box of a bin lies inside its "
-               "window" if not t_problems else "; ".join(t_problems),
-               construct="window tables updated")
-        for mk in ("__move_down", "__move_left"):
-            cs = [c_ for c_ in ast.walk(dec.node) if isinstance(c_, ast.Call)
-                  and isinstance(c_.func, ast.Name) and c_.func.id == mk]
-            okm = bool(cs) and all(
-                not c_.keywords and [ast.unparse(a).replace(" ", "")
-                                     for a in c_.args] in (
-                    [dec.params[1], "item_bin", "int(bin_start)",
-                     "int(bin_end)", loop_i],
-                    [dec.params[1], "item_bin", "bin_start", "bin_end",
-                     loop_i]) for c_ in cs)
-            ctx.ob("D14.4", dec, cs[0] if cs else dec.node, okm,
-                   f"{mk}(packing, bin, window start, window end, i)"
-                   if okm else f"{mk} is not called as (packing, bin, "
-                   "window start, window end, current index)",
-                   construct=f"arguments of {mk}")
+    """D14.4 over the path model of the decoder (sa.decmodel)."""
+    from sa.checks.ibl_rules import build_model, c14_rules
+    model = build_model(ctx, enc, C)
+    if model is not None:
+        c14_rules(ctx, model, enc2, C)
 
 
 # ------------------------------------------------------------------ D14.1
@@ -611,39 +473,62 @@ def _stateless_kernel(ctx: Ctx, dec: FuncInfo, enc2: bool,
                "read is the current row or provably an earlier one; bin "
                "table cells read lie below bin_id",
                construct="reads of destination rows")
-    # ---- write-before-read inside one iteration (CFG)
-    loop = _item_loop(dec)
-    cfg = CFG(loop.body)
-
-    def stores_col(n: Any, col: int) -> bool:
-        a = n.ast
-        if n.kind != "stmt" or not isinstance(a, ast.Assign):
-            return False
-        t = a.targets[0]
-        return isinstance(t, ast.Subscript) and isinstance(
-            t.value, ast.Name) and t.value.id == "y" and isinstance(
-            t.slice, ast.Tuple) and len(t.slice.elts) == 2 and \
-            repo.const(dec.module, t.slice.elts[1]) == col
-
-    movers = [n for n in cfg.nodes if n.kind == "test" and any(
-        isinstance(c.func, ast.Name) and c.func.id.startswith("__move")
-        for c in calls_in(n.ast))]
-    ctx.need(movers, "move-kernel calls in the item loop")
+    # ---- write-before-read inside one iteration (path model)
+    from sa.checks.ibl_rules import build_model, classify
+    enc = dec.module.name.split(".")[-1]
+    m = build_model(ctx, enc, C)
+    if m is None:
+        return
+    loop = m.loop
+    cn = {v: k for k, v in C.items()}
     for cname in ("IDX_LEFT_X", "IDX_BOTTOM_Y", "IDX_RIGHT_X", "IDX_TOP_Y"):
-        ok = all(cfg.dominated_by(m, lambda n, c=C[cname]: stores_col(n, c))
-                 for m in movers)
+        ok = bool(m.moves) and all(
+            mv.coords.get(C[cname]) is not None
+            and not m.is_garbage(mv.coords[C[cname]]) for mv in m.moves)
         ctx.ob("D14.1", dec, loop, ok,
                f"column {cname} of the current row is written on every "
                "path before the move kernels read it" if ok else
                f"column {cname} of the current row may be read before it "
                "is written in this iteration",
                construct=f"write-before-read {cname}")
+    # no value or decision of an iteration depends on what the row held
+    # before (a cell of row i that the iteration did not write first)
+    stale: set[str] = set()
+
+    def scan(v: Any) -> None:
+        if isinstance(v, (Poly, tuple)):
+            for a_ in all_atoms(v):
+                if a_[0] == "cell" and a_[1] == "y" and a_[2] and \
+                        a_[2][0] == m.i:
+                    cv = a_[2][1].const_value() if len(a_[2]) > 1 else None
+                    stale.add(cn.get(int(cv), str(cv)) if cv is not None
+                              else "?")
+                if a_[0] == "var" and Poly.atom(a_) in m.garbage:
+                    stale.add("coordinates left by a bin that did not fit")
+    for st in m.finals:
+        for c_, _t in st.trail:
+            scan(c_)
+        for v in st.env.stores.values():
+            scan(v)
+        for k_ in m.carried:
+            scan(st.env.vars.get(k_))
+    for mv in m.moves:
+        for c_, _t in mv.trail:
+            scan(c_)
+        for v in mv.coords.values():
+            scan(v)
+        for _k, args, _c in mv.calls:
+            for a_ in args:
+                scan(a_)
+    ctx.ob("D14.1", dec, loop, not stale,
+           "no decision and no stored value of an iteration depends on "
+           "what the current row held before the iteration" if not stale
+           else "the previous contents of the current row are read: "
+           + ", ".join(sorted(stale)), construct="stale row contents")
     for cname in ("IDX_ID", "IDX_BIN"):
-        ok = cfg.postdominated_by(
-            cfg.entry, lambda n, c=C[cname]: stores_col(n, c))
-        if not ok:
-            ok = _flag_protocol(loop, lambda st_, c=C[cname]: _is_store(
-                repo, dec, st_, c))
+        key = ("y", (m.i, Poly.const(C[cname])))
+        ok = bool(m.finals) and all(
+            st.env.stores.get(key) is not None for st in m.finals)
         ctx.ob("D14.1", dec, loop, ok,
                f"column {cname} is stored on every path through an "
                "iteration (later iterations and the objectives read it)"
@@ -651,81 +536,25 @@ def _stateless_kernel(ctx: Ctx, dec: FuncInfo, enc2: bool,
                           f"{cname} of the row unwritten",
                construct=f"always written {cname}")
     if enc2:
-        # prefix initialisation of the bin tables
-        body = func_body(dec)
-        first_loop = body.index(loop)
-        init0 = {t: False for t in ("bin_starts", "bin_ends")}
-        for s in body[:first_loop]:
-            if isinstance(s, ast.Assign) and isinstance(
-                    s.targets[0], ast.Subscript) and isinstance(
-                    s.targets[0].value, ast.Name) and \
-                    s.targets[0].value.id in init0 and \
-                    ast.unparse(s.targets[0].slice) == "0":
-                init0[s.targets[0].value.id] = True
-        ok0 = all(init0.values())
-        # cell bin_id written right before the increment
-        okp = False
-        for s in ast.walk(loop):
-            if isinstance(s, ast.If):
-                names = [ast.unparse(x.targets[0]) for x in s.body
-                         if isinstance(x, ast.Assign)]
-                if "bin_id" in names:
-                    i_inc = names.index("bin_id")
-                    okp = "bin_starts[bin_id]" in names[:i_inc] and \
-                        "bin_ends[bin_id]" in names[:i_inc]
+        zero = (Poly.const(0),)
+        ok0 = all((t, zero) in m.pre.stores
+                  for t in ("bin_starts", "bin_ends"))
+        from sa.checks.ibl_rules import counter_of
+        cnt = counter_of(m)
+        okp = cnt is not None
+        if okp:
+            c_in = (m.carried_sym[cnt],)
+            for st in m.finals:
+                kind, _mv = classify(m, st)
+                if kind == "reset":
+                    okp = okp and all((t, c_in) in st.env.stores
+                                      for t in ("bin_starts", "bin_ends"))
         ctx.ob("D14.1", dec, loop, ok0 and okp,
                "bin tables: cell 0 is written before the loop and cell "
-               "bin_id is written immediately before bin_id is incremented "
+               "bin_id is written whenever bin_id is incremented "
                "(cells [0, bin_id) are always initialised)" if ok0 and okp
                else "bin tables may be read at cells that were not written "
                     "in this call", construct="bin table prefix")
-
-
-def _is_store(repo: Any, dec: FuncInfo, a: ast.stmt, col: int) -> bool:
-    if not isinstance(a, ast.Assign):
-        return False
-    t = a.targets[0]
-    return isinstance(t, ast.Subscript) and isinstance(
-        t.value, ast.Name) and t.value.id == "y" and isinstance(
-        t.slice, ast.Tuple) and len(t.slice.elts) == 2 and \
-        repo.const(dec.module, t.slice.elts[1]) == col
-
-
-def _flag_protocol(loop: ast.For, is_store: Any) -> bool:
-    """`flag = True; for ..: if fit: flag = False; <store>; break` followed
-    by `if flag: <store>`: the store happens on every path although no
-    single statement post-dominates the iteration."""
-    body = loop.body
-    for i, s in enumerate(body):
-        if not (isinstance(s, (ast.Assign, ast.AnnAssign)) and isinstance(
-                s.value, ast.Constant) and s.value.value is True):
-            continue
-        tg = s.targets[0] if isinstance(s, ast.Assign) else s.target
-        if not isinstance(tg, ast.Name):
-            continue
-        flag = tg.id
-        clears = [n for n in ast.walk(ast.Module(body=body[i + 1:],
-                                                 type_ignores=[]))
-                  if isinstance(n, ast.If) and any(
-                      isinstance(x, ast.Assign) and isinstance(
-                          x.targets[0], ast.Name) and x.targets[0].id == flag
-                      and isinstance(x.value, ast.Constant)
-                      and x.value.value is False for x in n.body)]
-        uses = [n for n in body[i + 1:] if isinstance(n, ast.If)
-                and isinstance(n.test, ast.Name) and n.test.id == flag]
-        others = [n for n in ast.walk(ast.Module(body=body[i + 1:],
-                                                 type_ignores=[]))
-                  if isinstance(n, (ast.Assign, ast.AnnAssign)) and any(
-                      isinstance(t, ast.Name) and t.id == flag for t in (
-                          n.targets if isinstance(n, ast.Assign)
-                          else [n.target]))
-                  and not (isinstance(n.value, ast.Constant)
-                           and n.value.value is False)]
-        if clears and len(uses) == 1 and not others and all(
-                any(is_store(x) for x in c.body) for c in clears) and any(
-                is_store(x) for x in uses[0].body):
-            return True
-    return False
 
 
 def _stateless_class(ctx: Ctx, modn: str, dec: FuncInfo) -> None:
@@ -756,26 +585,29 @@ def _stateless_class(ctx: Ctx, modn: str, dec: FuncInfo) -> None:
     for n in ast.walk(d.node):
         if isinstance(n, ast.Assign) and isinstance(
                 n.targets[0], ast.Attribute) and \
-                n.targets[0].attr == "n_bins" and isinstance(
-                n.value, ast.Call) and repo.resolve_expr(
-                mod, n.value.func) is dec:
-            args = n.value.args
-            ok = len(args) >= 2 and [ast.unparse(a) for a in args[:2]] == \
-                d.params[1:3] and isinstance(
-                n.targets[0].value, ast.Name) and \
-                n.targets[0].value.id == d.params[2]
+                n.targets[0].attr == "n_bins":
+            val = inline_locals(d.node, n.value)
+            if isinstance(val, ast.Call) and repo.resolve_expr(
+                    mod, val.func) is dec:
+                args = val.args
+                ok = len(args) >= 2 and [ast.unparse(a)
+                                         for a in args[:2]] == \
+                    d.params[1:3] and isinstance(
+                    n.targets[0].value, ast.Name) and \
+                    n.targets[0].value.id == d.params[2]
     ctx.ob("D14.1", d, d.node, ok,
            "decode(x, y) stores the kernel's bin count in y.n_bins and "
            "passes exactly (x, y, ...)", construct="decode wiring")
     eff_writes = []
     for n in ast.walk(d.node):
-        if isinstance(n, (ast.Assign, ast.AugAssign)):
+        if isinstance(n, (ast.Assign, ast.AugAssign, ast.AnnAssign)):
             for t in (n.targets if isinstance(n, ast.Assign)
                       else [n.target]):
+                if isinstance(t, ast.Name):
+                    continue                      # a local of decode()
                 src = ast.unparse(t)
                 if not src.startswith(d.params[2]):
                     eff_writes.append(n)
     ctx.ob("D14.1", d, eff_writes[0] if eff_writes else d.node,
            not eff_writes, "decode itself writes nothing but y.n_bins",
            construct="decode writes", nontrivial=False)
-
